@@ -108,7 +108,7 @@ func (x *Exec) enabled(t *Thread) bool {
 		}
 		if me != nil && me.due.IsConst() {
 			for _, tm := range x.timers {
-				if tm != me && tm.armed && tm.due.IsConst() && tm.due.SVal() < me.due.SVal() {
+				if tm != me && tm.armed && tm.due.IsConst() && tm.due.Val < me.due.Val {
 					return false
 				}
 			}
